@@ -1,7 +1,7 @@
 (* C09_UnbufRelease.v — the RELEASE clause for the repaired unbuffered channel (fx = true), every schedule:
    invariants over the two condition-variable queues and the wake state. *)
 From Coq Require Import ZArith List Bool Arith Lia.
-From PV Require Import Base.U64 C09.C09_Common C09.C09_Unbuf C09.C09_BufProofs C09.C09_UnbufProofs C09.C09_TimeProofs.
+From PV Require Import Base.U64 C09.C09_Common C09.C09_Unbuf C09.C09_Model C09.C09_Witness C09.C09_BufProofs C09.C09_UnbufProofs C09.C09_TimeProofs.
 Import ListNotations.
 Local Open Scope Z_scope.
 
@@ -516,5 +516,98 @@ Proof.
                                     [apply Z.eqb_eq in E; lia | rewrite B in E; discriminate E] end ] ]].
   (* monotonicity for steps that wake no sender *)
   all: try solve [intros X; try discriminate X; projs; repeat split; intros; try assumption; try lia; try congruence; try discriminate].
-  all: match goal with |- ?G => idtac "G" G end.
-Abort.
+Qed.
+
+Lemma RI2_utimer s t s' : RI s -> RI2 s -> utimer s t = Some s' -> RI2 s'.
+Proof.
+  intros I [HL HC] H. unfold utimer in H. destruct (u_w s t) eqn:Ew; try discriminate.
+  destruct (u_dl s t <=? u_now s); [|discriminate]. inversion H; subst; clear H.
+  constructor; cbn; [exact HL|].
+  intros S HS1 HSa Hr Hs Hc.
+  assert (Hne : S <> t) by (intros ->; rewrite upd_same in HSa; discriminate).
+  rewrite upd_other in HSa by assumption.
+  destruct (HC S HS1 HSa Hr Hs Hc) as [x [[A B]|A]]; exists x.
+  - left. split; [exact A|]. assert (x <> t) by (intros ->; congruence). rewrite upd_other; auto.
+  - right. exact A.
+Qed.
+Lemma RI2_tick s d : RI2 s -> RI2 (set_u_now s (u_now s + Z.of_nat d)).
+Proof. intros []. constructor; cbn; auto. Qed.
+
+Theorem RI2_reach progs now0 s : ureach true progs now0 s -> RI2 s.
+Proof.
+  induction 1 as [|s l s' R IH H].
+  - apply RI2_init.
+  - destruct l as [t|t|d]; cbn in H.
+    + eapply RI2_ustep; eauto; [eapply uinv_reach|eapply RI_reach]; eauto.
+    + eapply RI2_utimer; eauto. eapply RI_reach; eauto.
+    + inversion H; subst. apply RI2_tick. exact IH.
+Qed.
+
+(* ---- the release clause ----------------------------------------------------------------------- *)
+(* quiescent: the mutex is free and every thread is between two operations or asleep in a cv wait *)
+Definition uquiescent (s : ust) : Prop :=
+  u_mtx s = None /\ forall t, u_pc s t = UIdle \/ u_w s t = Asleep.
+
+Theorem unbuf_release progs now0 s : ureach true progs now0 s -> uquiescent s ->
+  (* after close() nobody is left asleep *)
+  (u_closed s = true -> forall t, u_w s t <> Asleep) /\
+  (* no receiver asleep while a value is in the slot *)
+  (forall t e, u_pc s t = UR_w e -> u_w s t = Asleep -> u_slot s = None) /\
+  (* no sender asleep in loop 2 after its value was taken *)
+  (forall t v e q, u_pc s t = US_w2 v e q -> u_w s t = Asleep -> q = u_seq s /\ u_slot s = Some v) /\
+  (* no sender asleep in loop 1 (waiting for a receiver / the slot) while a receiver is asleep *)
+  (forall t1 v e t2 e2, u_pc s t1 = US_w1 v e -> u_w s t1 = Asleep -> u_pc s t2 = UR_w e2 -> u_w s t2 = Asleep -> False).
+Proof.
+  intros R [_ Q]. pose proof (RI_reach _ _ _ R) as I. pose proof (RI2_reach _ _ _ R) as I2.
+  pose proof (uinv_reach _ _ _ R) as UI.
+  (* an active thread contradicts quiescence *)
+  assert (Act : forall x, u_pc s x <> UIdle -> u_w s x <> Asleep -> False).
+  { intros x A B. destruct (Q x); contradiction. }
+  assert (C1 : u_closed s = true -> forall t, u_w s t <> Asleep).
+  { intros C. destruct (r_cl _ I C) as [[c Hc]|X]; [|exact X]. exfalso. apply (Act c); [rewrite Hc; discriminate|].
+    intros E. destruct (r_sl _ I _ E) as [[A _]|[A _]]; rewrite Hc in A; discriminate. }
+  assert (C2 : forall t e, u_pc s t = UR_w e -> u_w s t = Asleep -> u_slot s = None).
+  { intros t e Ep E. destruct (u_slot s) eqn:Es; [|reflexivity]. exfalso.
+    assert (Rn : u_rcv s <> []).
+    { destruct (r_sl _ I _ E) as [[A _]|[_ B]]; [rewrite Ep in A; discriminate|]. intros X. rewrite X in B. exact B. }
+    assert (Sn : u_slot s <> None) by (rewrite Es; discriminate).
+    destruct (r_slot _ I Sn Rn) as [x [[A B]|A]].
+    - apply (Act x); [destruct (u_pc s x); discriminate|rewrite B; discriminate].
+    - apply (Act x); [destruct (u_pc s x); discriminate|].
+      intros E2. destruct (r_sl _ I _ E2) as [[X _]|[X _]]; destruct (u_pc s x); discriminate. }
+  split; [exact C1|]. split; [exact C2|]. split.
+  - intros t v e q Ep E. pose proof (r_w2 _ I _ _ _ _ Ep E) as Eq. split; [exact Eq|].
+    destruct (u_val _ UI t v (Post q)) as (_ & _ & X); [cbn; rewrite Ep; reflexivity|].
+    cbn in X. destruct X as [(_ & X & _)|(X & _)]; [exact X|lia].
+  - intros t1 v e t2 e2 Ep1 E1 Ep2 E2.
+    assert (Hrw : 0 < u_rw s).
+    { destruct (c_rw _ I2) as (L & ND & HL & Erw). rewrite Erw.
+      assert (Hr : regR (u_pc s t2) = true) by (rewrite Ep2; reflexivity).
+      pose proof (cnt_pos (u_pc s) L t2 (HL _ Hr) Hr). lia. }
+    assert (Hcl : u_closed s = false).
+    { destruct (u_closed s) eqn:C; [|reflexivity]. exfalso. exact (C1 eq_refl t1 E1). }
+    assert (H1 : ws1 (u_pc s t1) = true) by (rewrite Ep1; reflexivity).
+    destruct (c_C _ I2 t1 H1 E1 Hrw (C2 _ _ Ep2 E2) Hcl) as [x [[A B]|A]].
+    + apply (Act x); [destruct (u_pc s x); discriminate|rewrite B; discriminate].
+    + apply (Act x); [destruct (u_pc s x); discriminate|].
+      intros E3. destruct (r_sl _ I _ E3) as [[X _]|[X _]]; destruct (u_pc s x); discriminate.
+Qed.
+
+(* the hypotheses are met by a non-trivial state: the F10 schedule on the repaired code ends quiescent with
+   sender 3 asleep in loop 1 (no receiver left), value (2,0) delivered *)
+Example unbuf_release_example :
+  exists s, ureach true C09_Witness.f10_progs 1000 s /\ uquiescent s /\ u_w s 3%nat = Asleep /\
+            (exists v e, u_pc s 3%nat = US_w1 v e) /\ u_taken s = [(2, 0)%nat].
+Proof.
+  destruct C09_Witness.f10_fixed_behaviour as (s & H & A & _).
+  exists s. split.
+  { clear A. revert H. generalize (ureach_init true C09_Witness.f10_progs 1000).
+    generalize (u_init C09_Witness.f10_progs 1000) as s0.
+    generalize (C09_Witness.thr [1; 1; 1; 2; 2; 2; 2; 2; 3; 3; 3; 1; 1; 2; 2; 2; 3; 3]%nat) as ls.
+    induction ls as [|l r IH]; intros s0 R H; cbn in H; [inversion H; subst; exact R|].
+    destruct (ulstep true s0 l) eqn:E; [|discriminate]. eapply IH; [|exact H]. eapply ureach_step; eauto. }
+  revert H. vm_compute. intros H. inversion H; subst; clear H. vm_compute.
+  split; [split; [reflexivity|]|].
+  - intros t. do 4 (destruct t as [|t]; [vm_compute; auto|]). left. reflexivity.
+  - split; [reflexivity|]. split; [do 2 eexists; reflexivity|reflexivity].
+Qed.
